@@ -202,6 +202,28 @@ func RRKey(rr dns.RR) string {
 	c.Header().Name = dns.CanonicalName(c.Header().Name)
 	c.Header().Ttl = 0
 	c.Header().Rdlength = 0
+	// Domain names inside RDATA compare case-insensitively (RFC 4343). The byte path of sdns
+	// compresses them against the client's question, so their case follows the question's.
+	switch x := c.(type) {
+	case *dns.NS:
+		x.Ns = strings.ToLower(x.Ns)
+	case *dns.CNAME:
+		x.Target = strings.ToLower(x.Target)
+	case *dns.DNAME:
+		x.Target = strings.ToLower(x.Target)
+	case *dns.PTR:
+		x.Ptr = strings.ToLower(x.Ptr)
+	case *dns.MX:
+		x.Mx = strings.ToLower(x.Mx)
+	case *dns.SOA:
+		x.Ns, x.Mbox = strings.ToLower(x.Ns), strings.ToLower(x.Mbox)
+	case *dns.SRV:
+		x.Target = strings.ToLower(x.Target)
+	case *dns.RRSIG:
+		x.SignerName = strings.ToLower(x.SignerName)
+	case *dns.NSEC:
+		x.NextDomain = strings.ToLower(x.NextDomain)
+	}
 	s := c.String()
 	return s
 }
